@@ -366,7 +366,7 @@ class AuthorizationServerMetadata(dict):
 
 def _validate_alg_values(data, key, auth_methods_supported):
     value = data.get(key)
-    if value and not isinstance(value, list):
+    if value is not None and not isinstance(value, list):
         raise ValueError(f'"{key}" MUST be JSON array')
 
     auth_methods = set(auth_methods_supported)
